@@ -276,6 +276,12 @@ func (e *cpEngine) byteBinop(x *ssa.BinOp, a, b cpVal) (cpVal, bool) {
 		if wide {
 			return normAff(affCombine(aa, ba, -1)), true
 		}
+	case token.OR, token.XOR:
+		// x | y (and x ^ y) of values whose bits cannot overlap is their sum: the base-128 accumulation
+		// "x |= uint64(b&0x7f) << s" stays an exact sum of per-byte tables
+		if wide && e.affBitsDisjoint(aa, ba) {
+			return normAff(affCombine(aa, ba, 1)), true
+		}
 	case token.MUL:
 		if wide {
 			if k, ok := b.(cpInt); ok {
@@ -574,4 +580,35 @@ func (e *cpEngine) rngBinop(x *ssa.BinOp, a, b cpVal) (cpVal, bool) {
 		}
 	}
 	return e.fresh("binop"), true
+}
+
+// affBitsDisjoint: over the values the bytes can still take on this path, no bit is set in two of the
+// terms (or constants) of a and b.
+func (e *cpEngine) affBitsDisjoint(a, b cpAff) bool {
+	var masks []uint64
+	add := func(x cpAff) {
+		if x.Add != 0 {
+			masks = append(masks, uint64(x.Add))
+		}
+		for _, t := range x.Terms {
+			known := e.byteSet(t.ID)
+			m := uint64(0)
+			for v := 0; v < 256; v++ {
+				if known.has(v) {
+					m |= uint64(t.F[v])
+				}
+			}
+			masks = append(masks, m)
+		}
+	}
+	add(a)
+	add(b)
+	seen := uint64(0)
+	for _, m := range masks {
+		if seen&m != 0 {
+			return false
+		}
+		seen |= m
+	}
+	return true
 }
